@@ -296,7 +296,7 @@ func VH_C03_follower_apply() {
 	vReach("end")
 }
 
-//verif:check C03,C09 stubs=env,valuefile,abslog,snapfs reach=restored,restore-failed,end desc="stateMachine.onRestoreReq: the FSM loop's position (index, term, configuration) moves to the snapshot's only together with the state machine's contents: after a successful restore they are the snapshot label's, after a failed one (the user's Restore returns an error and keeps its state) they are unchanged, so that nothing is applied on top of a state it does not belong to" bounds="any applied position and snapshot label (64-bit); Restore succeeds or fails"
+//verif:check C03,C09,C12 stubs=env,valuefile,abslog,snapfs reach=restored,restore-failed,end desc="stateMachine.onRestoreReq: the FSM loop's position (index, term, configuration) moves to the snapshot's only together with the state machine's contents: after a successful restore they are the snapshot label's, after a failed one (the user's Restore returns an error and keeps its state) they are unchanged, so that nothing is applied on top of a state it does not belong to" bounds="any applied position and snapshot label (64-bit); Restore succeeds or fails"
 func VH_C03_restore_position() {
 	r := vMkRaft(1)
 	vSymTermState(r)
